@@ -492,6 +492,28 @@ theorem inv_reachable {s : Sys} (h : Reachable s) : Inv s := by
   obtain ⟨p, es, h⟩ := h
   exact inv_run _ _ es (inv_init p) h
 
+/-- any two elements of a pairwise-ordered list are related one way or the other -/
+theorem pairwise_total {α : Type} {R : α → α → Prop} : ∀ {l : List α}, l.Pairwise R →
+    ∀ a ∈ l, ∀ b ∈ l, a = b ∨ R a b ∨ R b a
+  | [], _, a, ha, _, _ => by cases ha
+  | x :: xs, h, a, ha, b, hb => by
+    obtain ⟨hx, hxs⟩ := List.pairwise_cons.1 h
+    cases ha with
+    | head =>
+      cases hb with
+      | head => exact Or.inl rfl
+      | tail _ hb' => exact Or.inr (Or.inl (hx b hb'))
+    | tail _ ha' =>
+      cases hb with
+      | head => exact Or.inr (Or.inr (hx a ha'))
+      | tail _ hb' => exact pairwise_total hxs a ha' b hb'
+
+/-- a prefix agrees with the longer list on all its positions -/
+theorem prefix_getElem? {α : Type} {l₁ l₂ : List α} (h : l₁ <+: l₂) {i : Nat} (hi : i < l₁.length) :
+    l₂[i]? = l₁[i]? := by
+  obtain ⟨t, rfl⟩ := h
+  rw [List.getElem?_append_left hi]
+
 /-- a chain is pairwise ordered: every earlier element is extended by every later one -/
 theorem chain_pairwise : ∀ (H : List Ck), Chain H → H.Pairwise (fun newer older =>
     older.leaves <+: newer.leaves ∧ older.time < newer.time)
